@@ -24,7 +24,8 @@ class Space:
     """
 
     def __init__(self, name, runner, cases, oracle="table", nontrivial=None, agree=None,
-                 rule="", batch=200, watchdog=None, describe=None, bound=None, differential=False):
+                 rule="", batch=200, watchdog=None, describe=None, bound=None, differential=False,
+                 nondeterminism_is_violation=False):
         self.name = name
         self.runner = runner
         self.cases = cases
@@ -39,6 +40,9 @@ class Space:
         # differential: the runner computes its own expectation from an earlier phase of the same execution (state-dependent by
         # design); a violation is confirmed when the re-execution disagrees with ITS expectation, not when the strings repeat
         self.differential = differential
+        # for properties that state determinism: a disagreement that shows up in one execution and not (or differently) in the
+        # next one of the same case is itself the violation (never for resource kills of the harness)
+        self.nondeterminism_is_violation = nondeterminism_is_violation
 
 
 class Result:
@@ -131,13 +135,15 @@ def run_spaces(prop, spaces, ledger, pool, triage=False, res=None, sample_every=
 def confirm_violations(res, pool, spaces=()):
     """Re-execute every reported violation once more; it must reproduce identically."""
     diff = {sp.name: sp for sp in spaces if getattr(sp, "differential", False)}
+    dogs = {sp.name: sp.watchdog for sp in spaces}
+    nondet = {sp.name for sp in spaces if getattr(sp, "nondeterminism_is_violation", False)}
     by_runner = {}
     for v in res.violations:
-        by_runner.setdefault(v["runner"], []).append(v)
+        by_runner.setdefault((v["runner"], dogs.get(v["space"])), []).append(v)
     flaky = []
-    for runner, vs in by_runner.items():
+    for (runner, dog), vs in by_runner.items():
         items = [(i, (v["payload"] if v["payload"] is not None else v["case_id"])) for i, v in enumerate(vs)]
-        for idx, out in pool.run(runner, items, batch=5):
+        for idx, out in pool.run(runner, items, batch=(1 if dog else 5), watchdog=dog):
             obs = out.partition("\x00")[0] if "\x00" in out else out
             sp = diff.get(vs[idx]["space"])
             if sp is not None and "\x00" in out:
@@ -145,6 +151,10 @@ def confirm_violations(res, pool, spaces=()):
                     flaky.append((vs[idx], obs))
                 continue
             if obs != vs[idx]["observed"]:
+                if vs[idx]["space"] in nondet and HOST_RESOURCE not in (obs, vs[idx]["observed"]) and not obs.startswith(FRAMEWORK):
+                    vs[idx]["second_execution_observed"] = obs
+                    vs[idx]["observed"] += "   [a second execution of the same case observed: %s]" % obs[:200]
+                    continue
                 flaky.append((vs[idx], obs))
     return flaky
 
